@@ -119,18 +119,18 @@ Proof.
       lazy -[Py.qadd Py.qsub Py.qmul Py.qdiv Py.qeqb Py.qleb Py.ocall Qmult Qdiv Qeq_bool C13Replaced.qdiv];
       finish HO.
   - destruct iw0 as [w|], ih0 as [h|].
-    + pose proof (HS (Intr (Some w) (Some h) ir0) dw dh (or_introl ltac:(discriminate))) as E.
+    + pose proof (HS (Intr (Some w) (Some h) ir0) dw dh (or_introl (fun X => ltac:(discriminate X)))) as E.
       cbn [iw ih ir voq] in E.
       destruct ir0 as [r|], aw, ah;
         lazy -[Py.qadd Py.qsub Py.qmul Py.qdiv Py.qeqb Py.qleb Py.ocall Qmult Qdiv Qeq_bool C13Replaced.qdiv dis_step];
         cbn [voq] in E; rewrite E; cbn; reflexivity.
-    + pose proof (HS (Intr (Some w) None ir0) dw dh (or_introl ltac:(discriminate))) as E.
+    + pose proof (HS (Intr (Some w) None ir0) dw dh (or_introl (fun X => ltac:(discriminate X)))) as E.
       cbn [iw ih ir voq] in E.
       destruct ir0 as [r|], aw, ah;
         lazy -[Py.qadd Py.qsub Py.qmul Py.qdiv Py.qeqb Py.qleb Py.ocall Qmult Qdiv Qeq_bool C13Replaced.qdiv dis_step];
         cbn [voq] in E; rewrite E; cbn [dis_step iw ih ir C13Replaced.bind];
         try (destruct (C13Replaced.qdiv w r)); cbn; auto.
-    + pose proof (HS (Intr None (Some h) ir0) dw dh (or_intror ltac:(discriminate))) as E.
+    + pose proof (HS (Intr None (Some h) ir0) dw dh (or_intror (fun X => ltac:(discriminate X)))) as E.
       cbn [iw ih ir voq] in E.
       destruct ir0 as [r|], aw, ah;
         lazy -[Py.qadd Py.qsub Py.qmul Py.qdiv Py.qeqb Py.qleb Py.ocall Qmult Qdiv Qeq_bool C13Replaced.qdiv dis_step];
